@@ -7,7 +7,7 @@ from ..runner import canon
 
 MODULE = "Props.C14"
 THEOREMS = ["C14_flatten_is_leaves", "C14_rejected_iff", "C14_accepted_iff", "C14_constructor",
-            "C14_no_at_least_on_ordered", "C14_then_needs_exact", "C14_nonvacuous"]
+            "C14_no_at_least_on_ordered", "C14_then_needs_exact", "C14_nonvacuous", "C14_stub_conflict_nonvacuous"]
 
 RULE = ("clause trees written as REAL Rust tuple expressions, regenerated and compiled on every run: (1) one flat tuple per "
         "arity 2..16 of tagged ordered clauses -- the order in which the real impl visits its elements is read off the responses "
